@@ -36,6 +36,18 @@ def seqs(tier):
                 out.append(nm)
 
     emit(defs.product_defs(core, 2))
+    # definitions that do not start with the uint8 length field: a first field of a bytes type, a bit-field, a nested struct ...
+    firsts = ("char", "char[2]", "uint8:3", "in_t", "uint16[2]", "uint32")
+    seconds = ("uint8", "uint32", "char", "char[2]", "uint16:4", "in_t")
+    for a in firsts:
+        for b in seconds:
+            nm = (sc.NOLEAD, a, b)
+            if nm not in seen:
+                seen.add(nm)
+                out.append(nm)
+        nm = (sc.NOLEAD, a, "uint8", "uint16")
+        seen.add(nm)
+        out.append(nm)
     emit(defs.product_defs(reps, 3, 3))
     if tier == "thorough":
         emit(defs.product_defs(core, 3, 3))
@@ -75,6 +87,33 @@ def prereq_text(st: TStruct) -> str:
     return "\n".join(parts)
 
 
+def _poke(v, depth=0):
+    """Assign below field level in place (first element of an array, first scalar of a nested structure).  True if something was changed."""
+    from dissect.cstruct.types import Structure
+
+    if depth > 4:
+        return False
+    if isinstance(v, list):
+        if not v:
+            return False
+        if isinstance(v[0], (list, Structure)):
+            return _poke(v[0], depth + 1)
+        if isinstance(v[0], int) and not isinstance(v[0], bool):
+            v[0] = type(v[0])(1) if type(v[0]).__module__.startswith("dissect") and not hasattr(type(v[0]), "_member_map_") else 1
+            return True
+        return False
+    if isinstance(v, Structure):
+        for f in type(v).__fields__:
+            x = getattr(v, f._name, None)
+            if isinstance(x, (list, Structure)):
+                if _poke(x, depth + 1):
+                    return True
+            elif isinstance(x, int) and not isinstance(x, bool) and not f.bits and not hasattr(type(x), "_member_map_") and "Pointer" not in type(x).__mro__[1].__name__:
+                setattr(v, f._name, 1)
+                return True
+    return False
+
+
 def observe(T, inputs):
     """Everything the statement names: layout, reader kind, parse results (+sizes, tell) at offsets 0 and 1, writer, instance behaviour."""
     obs = {"layout": sc.layout_sig(T), "compiled": bool(T.__compiled__)}
@@ -109,6 +148,27 @@ def observe(T, inputs):
             obs["hash"] = hash(T()) == hash(T())
         except TypeError:
             obs["hash"] = "unhashable"
+        # default instances are independent: assigning below field level in one never shows in another
+        try:
+            d1 = T()
+            before = repr(impl.norm(T()))
+            poked = False
+            for f in T.__fields__:
+                x = getattr(d1, f._name, None)
+                if isinstance(x, list) or hasattr(type(x), "__fields__"):
+                    poked = _poke(x) or poked
+            obs["default_isolated"] = (repr(impl.norm(T())) == before, T().dumps().hex() == obs["default_dump"])
+        except Exception as e:  # noqa: BLE001
+            obs["default_isolated"] = "exc:" + type(e).__name__
+        # call form T(<bytes>) with short buffers (the single-char shortcut is decided from the CURRENT field list)
+        cb = []
+        for k in (1, 2, 4):
+            try:
+                v = T(inputs[0][:k])
+                cb.append((k, repr(impl.norm(v)), hasattr(v, "_sizes") and bool(getattr(v, "_sizes", None))))
+            except Exception as e:  # noqa: BLE001
+                cb.append((k, "exc:" + type(e).__name__))
+        obs["call_bytes"] = cb
         names = [f._name for f in T.__fields__]
         if names and T.__fields__[0].type.__name__ == "uint8":
             k = T(**{names[0]: 3})
@@ -124,6 +184,7 @@ def diff(a, b):
 
 def check_seq(names, endian, align, compiled, res: JobResult, tier):
     from dissect.cstruct import compiler, cstruct
+    from dissect.cstruct.types.structure import Field
 
     st, text = sc.build(names)
     case = sc.case_json(names, endian, align, compiled=compiled)
@@ -151,60 +212,106 @@ def check_seq(names, endian, align, compiled, res: JobResult, tier):
     except Exception as e:  # noqa: BLE001
         res.extra["oneshot_rejected"] += 1
         return
+    class Interrupt(Exception):
+        pass
+
+    def variants(batches):
+        yield 0, None
+        if len(batches[0]) == 1 and m > 1:
+            yield 1, None  # the class is CREATED with its first field, then extended
+        for bi, batch in enumerate(batches):
+            if len(batch) >= 2:
+                for j in range(1, len(batch)):
+                    yield 0, (bi, j)  # the batch is interrupted by an exception after j add_field calls
+
+    stop = False
     for batches in splits(m):
-        cs = cstruct(endian=endian)
-        try:
-            pre = prereq_text(st)
-            if pre:
-                cs.load(pre, compiled=compiled, align=align)
-            # field type objects exactly as the parser creates them
-            cs.load(f"struct TMP__ {{ {render_body(st)} }};", compiled=False, align=align)
-            ftypes = [(f._name, f.type, f.bits) for f in cs.TMP__.__fields__]
-            T = cs._make_struct("S", [], align=align)
-            if compiled:
-                T = compiler.compile(T)
-            cs.add_type("S", T)
-        except Exception as e:  # noqa: BLE001
-            viol("setup:raises", f"{impl.exc_sig(e)} {e!r}")
-            return
-        res.evaluations += 1
-        res.traces += 1
-        hist = []
-        done = 0
-        failed = False
-        for batch in batches:
+        for init, fault in variants(batches):
+            if tier == "quick" and fault is not None and len(batches) > 2:
+                continue
+            cs = cstruct(endian=endian)
             try:
-                if len(batch) == 1:
-                    n, t, b = ftypes[batch[0]]
-                    T.add_field(n, t, bits=b)
-                    hist.append(f"add_field({n})")
-                else:
-                    with T.start_update():
-                        for i in batch:
-                            n, t, b = ftypes[i]
-                            T.add_field(n, t, bits=b)
-                    hist.append("batch(" + ",".join(ftypes[i][0] for i in batch) + ")")
+                pre = prereq_text(st)
+                if pre:
+                    cs.load(pre, compiled=compiled, align=align)
+                # field type objects exactly as the parser creates them
+                cs.load(f"struct TMP__ {{ {render_body(st)} }};", compiled=False, align=align)
+                ftypes = [(f._name, f.type, f.bits) for f in cs.TMP__.__fields__]
+                T = cs._make_struct("S", [Field(n, t, bits=b) for n, t, b in ftypes[:init]], align=align)
+                if compiled:
+                    T = compiler.compile(T)
+                cs.add_type("S", T)
             except Exception as e:  # noqa: BLE001
-                viol("commit:raises", f"history {hist} then batch {[ftypes[i][0] for i in batch]}: {impl.exc_sig(e)} {e!r}", history=hist, split=[len(b) for b in batches])
-                failed = True
+                viol("setup:raises", f"{impl.exc_sig(e)} {e!r}")
+                return
+            res.evaluations += 1
+            res.traces += 1
+            hist = [f"create({','.join(x[0] for x in ftypes[:init])})"]
+            failed = False
+            todo = [list(b) for b in batches]
+            if init:
+                todo = todo[1:]
+            split_doc = {"split": [len(b) for b in batches], "init": init, "fault": list(fault) if fault else None}
+            bi = init
+            while todo:
+                batch = todo.pop(0)
+                cut = fault[1] if fault is not None and fault[0] == bi else None
+                bi += 1
+                try:
+                    if len(batch) == 1:
+                        n, t, b = ftypes[batch[0]]
+                        T.add_field(n, t, bits=b)
+                        hist.append(f"add_field({n})")
+                    elif cut is None:
+                        with T.start_update():
+                            for i in batch:
+                                n, t, b = ftypes[i]
+                                T.add_field(n, t, bits=b)
+                        hist.append("batch(" + ",".join(ftypes[i][0] for i in batch) + ")")
+                    else:
+                        try:
+                            with T.start_update():
+                                for i in batch[:cut]:
+                                    n, t, b = ftypes[i]
+                                    T.add_field(n, t, bits=b)
+                                raise Interrupt
+                        except Interrupt:
+                            pass
+                        hist.append("batch(" + ",".join(ftypes[i][0] for i in batch[:cut]) + ",<exception>)")
+                        res.extra["interrupted_batches"] += 1
+                except Exception as e:  # noqa: BLE001
+                    viol("commit:raises", f"history {hist} then batch {[ftypes[i][0] for i in batch]}: {impl.exc_sig(e)} {e!r}", history=hist, **split_doc)
+                    failed = True
+                    break
+                # the field list is the single source of truth (an interrupted batch may keep or drop what it added, but must be consistent)
+                done = len(T.__fields__)
+                if [f._name for f in T.__fields__] != [x[0] for x in ftypes[:done]]:
+                    viol("fields:unexpected", f"after {hist}: __fields__ = {[f._name for f in T.__fields__]}", history=list(hist), **split_doc)
+                    failed = True
+                    break
+                if cut is not None:
+                    rest = [i for i in batch if i >= done]
+                    if rest:
+                        todo.insert(0, rest)
+                res.transitions += 1
+                res.states += 1
+                if len(batches) > 1 or fault:
+                    res.nontrivial += 1
+                try:
+                    ref = oneshot(done)
+                except Exception:  # noqa: BLE001
+                    continue  # this prefix cannot be declared in one piece either
+                got = observe(T, inputs)
+                d = diff(got, ref)
+                if d:
+                    first = d[0]
+                    viol(f"differs:{first}", f"after {hist}: {first}: incremental {str(got.get(first))[:300]} one-shot {str(ref.get(first))[:300]}", history=list(hist), **split_doc)
+                    failed = True
+                    break
+            if failed:
+                stop = True
                 break
-            done += len(batch)
-            res.transitions += 1
-            res.states += 1
-            if len(batches) > 1:
-                res.nontrivial += 1
-            try:
-                ref = oneshot(done)
-            except Exception:  # noqa: BLE001
-                continue  # this prefix cannot be declared in one piece either
-            got = observe(T, inputs)
-            d = diff(got, ref)
-            if d:
-                first = d[0]
-                viol(f"differs:{first}", f"after {hist}: {first}: incremental {str(got.get(first))[:300]} one-shot {str(ref.get(first))[:300]}", history=list(hist), split=[len(b) for b in batches])
-                failed = True
-                break
-        if failed:
+        if stop:
             break
     if len(res.samples) < 2:
         res.samples.append({"definition": text, "splits": [[len(b) for b in bs] for bs in splits(m)][:4], "endian": endian, "align": align, "compiled": compiled})
@@ -344,10 +451,10 @@ def meta(tier):
     return {
         "rule": "explicit-state exploration of construction histories: for every field sequence (leading uint8 + <=2 atoms over the 26 core atoms, +3 atoms over "
         "12 representatives; thorough 3/4) and EVERY way of splitting it into consecutive commit steps (single add_field or start_update batch), on a "
-        "pre-registered empty structure as the parser creates it (compiled if requested), under both readers and both layouts: after every commit the "
+        "pre-registered empty structure as the parser creates it - or a class created with its first field - (compiled if requested), with at most one batch interrupted by an exception after j add_field calls (every j), under both readers and both layouts: after every commit the "
         "class is compared with the structure declared in one piece with the same fields - layout signature, compiled flag, parse results incl. "
-        "recorded sizes and consumed bytes at stream offsets 0 and 1, dumps, default construction, ==/hash/bool, keyword "
-        "construction; plus self-referential structures vs a void* twin (3 pointer widths) and repeated padding names; non-trivial = states reached "
+        "recorded sizes and consumed bytes at stream offsets 0 and 1, dumps, default construction, independence of default instances under in-place "
+        "assignment, T(<1/2/4 bytes>) call form, ==/hash/bool, keyword construction; plus self-referential structures vs a void* twin (3 pointer widths) and repeated padding names; non-trivial = states reached "
         "by more than one commit step",
         "bounds": {"sequences": "D(core,2)+D(12 reps,3)" if tier == "quick" else "D(core,3)+D(12 reps,4)", "splits": "all 2^(m-1)"},
         "assumptions": ["field type objects are taken from the parser (a scratch definition in the same cstruct object)"],
